@@ -84,7 +84,7 @@ function mkWorld (opts = {}) {
 
   function valueFor (path, k, depth, store) {
     if (k === 'prototype' && /\.X\d*$/.test(path)) return protoObj(path + '.prototype')
-    if (k === 'prototype') return protoObj(path + '.prototype') // every `.prototype` carries the String.prototype functions (see protoObj)
+    if (k === 'prototype') return mkFn(path + '.' + k, 'str')
     if (/^s\d*$/.test(k)) return ' ⟦' + path + '.' + k + '⟧ '
     if (/^sk\d*$/.test(k)) return ' ⟦' + path + '.' + k + '⟧ '
     if (/^n\d*$/.test(k)) return null
